@@ -17,10 +17,10 @@ import (
 	filemc "github.com/kubeflow/katib/pkg/metricscollector/v1beta1/file-metricscollector"
 )
 
-var c13Names = []string{"accuracy", "loss", "acc", "val-loss", "f1_score", "lr"}
+var c13Names = []string{"accuracy", "loss", "acc", "val-loss", "f1_score", "lr", "accuracy", "loss", "F1(macro)", "mAP[0.5]", "R^2", "P(top-1", "a.b", "x|y", "loss+reg", "m*", "q?"}
 var c13Times = []string{"2024-05-01T10:00:00Z", "2024-05-01T10:00:01.5Z", "2024-05-01T12:00:00+02:00", "2024-05-01T10:00:00.123456789Z"}
 var c13Filters = [][]string{nil, nil, {`([\w|-]+)\s*:\s*([+-]?\d*(\.\d+)?([Ee][+-]?\d+)?)`}, {`\{metricName: ([\w|-]+), metricValue: ((-?\d+)(\.\d+)?)\}`},
-	{`([\w|-]+)\s*=\s*([+-]?\d*(\.\d+)?([Ee][+-]?\d+)?)`, `([\w|-]+)\s*:\s*(\d+)`}, {`(acc\w*)=(\S+)`}}
+	{`([\w|-]+)\s*=\s*([+-]?\d*(\.\d+)?([Ee][+-]?\d+)?)`, `([\w|-]+)\s*:\s*(\d+)`}, {`(acc\w*)=(\S+)`}, {`([^=\s,;]+)=(\S+)`}, {`([^=\s,;]+)=(\S+)`}}
 
 func c13Val(rng *rand.Rand) string {
 	return pick(rng, []string{"0.5", "1", "-0.25", "1e-3", "10", ".5", "3.", "nan", "", "+7", "0.123456"})
